@@ -286,7 +286,10 @@ CLAIMED = {
         "simulation over the entire writer state machine): two runs of the same sequence of API calls over sinks that split "
         "writes differently (both failure-free; fresh or appended writer; any compressor/checksum) return the same result "
         "for every call, including the bytes finish() returns, and leave the same sink bytes -- runs returning the large-file "
-        "error of write are excluded, since the point where that error fires legitimately depends on the chunking.  "
+        "error of write are excluded, since the point where that error fires legitimately depends on the chunking.  THE "
+        "CALLER'S CHUNKING (C09_caller_split_independent): writing a ++ b to a stored entry with one write_all call or with "
+        "two leaves writer states related by the simulation relation, so every continuation returns the same results and "
+        "the same archive bytes.  "
         "Correspondence: "
         "reader model vs crate under explicit short-read plans and caller schedules on all methods and encryptions "
         "(uniform chunks, one short read at every byte position, random plans, refill patterns), short reads from the "
